@@ -1,8 +1,9 @@
 (** C12 -- The parser is total: any token stream yields an AST or an error value.
     Proved: no panic, for every source text, every file map (imports included), every fuel; every successful
     sub-parse consumes at least one token, so no loop of the parser can spin without progress.
-    Not proved as a theorem: that a fuel linear in the number of tokens is never exhausted (the model runs on fuel
-    supplied by the driver; an exhausted fuel would show as "hang" in the parse stream).  "Every program composed of the
+    Termination is a theorem too: 50 units of fuel per token plus 50 always suffice for a program without import
+    statements (C12_expression_parser_terminates and the termination theorems below, Proofs/ParseTerm.v), and with imports for every finite set of module files
+    (C15_loading_terminates, Proofs/LoaderTerm.v).  "Every program composed of the
     documented forms is accepted" IS a theorem: C12_every_expression_form_is_accepted (Proofs/ParseRender.v: every
     expression tree the grammar can express -- literals, variables, lists, records, grouping, unary and binary operators,
     calls, indexing, nested to any depth -- is parsed to that very tree) and C12_documented_programs_are_accepted
